@@ -547,10 +547,7 @@ Proof.
               | match dict_combine _ ?sym _ with _ => _ end = _ =>
                   apply (COMB sym); [first [split; left; reflexivity | split; right; reflexivity]|exact Hgo]
               end).
-    + destruct (mem_string (tname t) functions).
-      * apply (IH _ _ _ Hs Hgo).
-      * refine (IH _ _ _ _ Hgo). intros v Hv. destruct (dict_values_set_in _ _ _ _ Hv) as [->|Hin]; [split; left; reflexivity|apply Hs, Hin].
-    + apply (IH _ _ _ Hs Hgo).
+    apply (IH _ _ _ Hs Hgo).
 Qed.
 
 (* every symbol of the result carries either nothing or exactly the given equation and code *)
